@@ -13,8 +13,9 @@ Space (bounded, enumerated completely; see run() for the exact bound of each tie
 register names, start comment, mid-block comment, instruction comments on groups of 1-4
 instructions with operations of length {3,12,23,24,40}, end comment).  Families:
   W  one fixed text set x EVERY line width 40..200                     (asm, ctl)
-  L  every sentence length 0..2*width+1 x 3 word styles x group shapes
-     x line width {40,79,120} x configuration deviations d <= 1 (2)    (asm, ctl)
+  L  every sentence length 0..2*(width-2)+1 (in every comment position at once) x 3 word
+     styles x group shapes x line width {40,79,120} x configuration deviations d <= 1
+     (quick) / d <= 2 (thorough)                                        (asm, ctl)
   B  every word sequence of length <= k over {a, {, }, x}} as an instruction comment
      x group size 1..4 x source line split                              (asm, ctl, html)
   K  #LIST / #TABLE blocks (1-2 items / 1-2 rows x 2 cells, wrappable last column or not)
@@ -674,6 +675,21 @@ def run_doc(seam, key, cfg, seed, stats=None):
     return ents, probs
 
 
+def source_text(seam, ents):
+    if seam == 'ctl':
+        ctl, data = M.render_ctl(ents)
+        return 'control file:\n{}binary image at {} (hex): {}'.format(ctl, ents[0].addr, data.hex())
+    return M.render_skool(ents, start=seam == 'asm')
+
+
+def command_line(seam, cfg):
+    if seam == 'asm':
+        return 'skool2asm.py ' + ' '.join(asm_args(cfg, 'c18.skool'))
+    if seam == 'ctl':
+        return 'sna2skool.py ' + ' '.join(ctl_args(cfg, 'c18.ctl', 'c18.bin', '<address>'))
+    return 'skool2html.py -q -d out {}c18h.skool'.format('-1 ' if cfg.get('single_page') else '')
+
+
 def work_list(tier, seed):
     """Fixed-order list of (seam, doc key, cfg): simplest first."""
     quick = tier == 'quick'
@@ -792,7 +808,7 @@ def _shard(shard, nshards, tier, seed):
             if ei >= 0 and ei not in solo_cache:
                 nsolo[pname, kind] = nsolo.get((pname, kind), 0) + 1
                 if nsolo[pname, kind] > SOLO_CAP:
-                    solo_cache[ei] = []         # keep the packed document as the reproduction
+                    solo_cache[ei] = ([], '')   # keep the packed document as the reproduction
             e = ents[ei] if ei >= 0 else None
             case = {'seam': seam, 'key': key, 'cfg': cfg, 'seed': seed}
             where = 'doc'
@@ -800,11 +816,14 @@ def _shard(shard, nshards, tier, seed):
                 # smallest reproduction: the entry on its own (if it shows the same problem there)
                 solo = dict(key, only=ei)
                 if ei not in solo_cache:
-                    solo_cache[ei] = run_doc(seam, solo, cfg, seed)[1]
+                    sents, sprobs = run_doc(seam, solo, cfg, seed)
+                    solo_cache[ei] = (sprobs, source_text(seam, sents))
                     stats.transitions += 1
-                same = [q for q in solo_cache[ei] if _pos_name(q.pos) == pname and q.kind == kind]
+                same = [q for q in solo_cache[ei][0] if _pos_name(q.pos) == pname and q.kind == kind]
                 if same:
-                    case = {'seam': seam, 'key': solo, 'cfg': cfg, 'seed': seed}
+                    # 'input' is for the reader only (replay regenerates it from the key)
+                    case = {'seam': seam, 'key': solo, 'cfg': cfg, 'seed': seed, 'input': solo_cache[ei][1],
+                            'command': command_line(seam, cfg)}
                     p = same[0]
                 where = 'entry{}'.format(ei)
             cid = '{}/{}/{}/{}/{}:{}'.format(seam, ctag, _key_tag(key), where, pname, kind)
@@ -832,12 +851,16 @@ def run(tier, seed):
              'group spans several instructions, contains a #LIST/#TABLE block, or whose sentences are long enough to wrap in the '
              'instruction comment field'.format(CHUNK),
         exhaustive=True,
-        bound='W: {} fixed entries x every line width 40..200 (asm, ctl). L: 3 word styles x every sentence length 0..2*(width-2)+1 x '
-              '{} of the {} group shapes x line width {{40,79,120}} x configuration deviations d<={} (asm: {}; ctl: {}). '
-              'B: every sequence of <= {} words over {{a,{{,}},x}}}} x group size 1..4 x 3 source line splits (asm/ctl at 3 widths, html). '
-              'K: 6 block kinds x {} lengths x 4 contexts x 7 positions (asm x width/column-width deviations, html). N: 12 entries x line width {{31,24}} (asm). H: html length sweep.'.format(
-                  3 * len(W_LENGTHS) * (4 if quick else 12), 'every 6th (rotating with the length)' if quick else 'every 2nd (rotating with the length)', len(SHAPES),
-                  1 if quick else 2, ASM_ALTS, CTL_ALTS, 4 if quick else 5, 6 if quick else 10),
+        bound='W: {} fixed entries (3 styles x sentence lengths {} x {} shapes) x every line width 40..200 (asm, ctl). L: 3 word styles x every '
+              'sentence length 0..2*(width-2)+1 x {} of the {} group shapes x line width {{40,79,120}} x configuration deviations d<={} '
+              '(asm alternatives {}; ctl alternatives {}). B: every sequence of <= {} words over {{a,{{,}},x}}}} x group size 1..4 x 3 source line '
+              'splits (asm at 3 widths; html{}; ctl x 3 widths x InstructionWidth/CommentWidthMin deviations). K: 6 block kinds x {} lengths x 4 '
+              'contexts x 7 positions (asm x 3 widths x instruction-width/comment-width-min/wrap-column-width-min deviations; html). '
+              'N: 12 entries x line width {{31,24}} (asm). H: 3 styles x sentence lengths 0..{} x one in {} shapes, rotating (html).'.format(
+                  3 * len(W_LENGTHS) * (4 if quick else 12), list(W_LENGTHS), 4 if quick else 12,
+                  'every 6th (rotating with the length)' if quick else 'every 2nd (rotating with the length)', len(SHAPES),
+                  1 if quick else 2, ASM_ALTS, CTL_ALTS, 4 if quick else 5, '' if quick else ' incl. single-page mode for k<=3',
+                  6 if quick else 10, 159 if quick else 239, 12 if quick else 3),
         assumptions=[
             'brace rules ("Braces in comments"): the skool source written for skool2asm/skool2html wraps a group comment exactly as sna2skool does '
             '("{" + one more per unmatched "}", "{ {"/"} }" spacing, closing braces to balance); if the nesting count of the text drops to zero '
@@ -847,6 +870,8 @@ def run(tier, seed):
             'ctl seam replaces them by a brace-free sentence of the same length',
             'a group whose C/M directive carries no text declares no comment in a control file: expected as ungrouped instructions (ctl seam)',
             'entry titles have at least one word (an entry header starts with its title)',
+            'sentences are built from the word alphabet {a, bb, w;x, 9-char word, 30-char word, {, }, x}} plus one filler word "ff..f" (<= 30 '
+            'characters) that makes every exact length reachable; they are not limited to 12 words (the dense style needs more to reach 2*width)',
             'line length is counted in characters (a tab indent counts 1, as in skool2asm\'s own warning), without the line terminator',
             'documented minimum widths: the instruction field is at least as wide as the longest operation of the group (skool2asm) / entry '
             '(sna2skool) and the comment field at least comment-width-min / CommentWidthMin wide; lines up to that sum are not violations, '
